@@ -307,6 +307,43 @@ theorem member_qualifiers (arrow : Bool) (e o : Operand) (mty : Ty) (mq : Qual) 
     | (rw [decay_id _ hna hnf] at h; subst h; simp [memberQual])
     | (obtain ⟨_, h⟩ := h; rw [decay_id _ hna hnf] at h; subst h; simp [memberQual])
 
+/-- full-strength statement about `*e`: the result designates the referenced object, with the
+qualifiers of the referenced type (6.5.3.2p4) -/
+def deref_full : Prop :=
+  ∀ (sc : Bool) (e : Operand) (q : Qual) (b : Ty), e.ty = .ptr q b →
+    ∃ o, unaryOp sc .deref e = some o ∧ unaryOk sc .deref e o = true
+
+/-- `const int carr[2]; *carr` — the lvalue loses `const` (so `&*carr` is `int *` and `*carr = 5`
+is accepted): `mkunaryexpr(TMUL)` reuses the array designator and only replaces its type -/
+theorem deref_counterexample : ¬ deref_full := by
+  intro h
+  obtain ⟨o, ho, hk⟩ := h false (decay { ty := .arr { c := true } (.const 2) {} Ty.int, lvalue := true })
+    { c := true } Ty.int rfl
+  have : unaryOp false .deref (decay { ty := .arr { c := true } (.const 2) {} Ty.int, lvalue := true }) =
+      some { ty := Ty.int, lvalue := true } := by rfl
+  rw [this] at ho
+  cases ho
+  exact absurd hk (by decide)
+
+/-- everywhere else `*e` is right: in particular whenever the operand is not a decayed array
+whose element type is qualified -/
+theorem deref_partial (sc : Bool) (e : Operand) (q : Qual) (b : Ty) (he : e.ty = .ptr q b)
+    (hd : ∀ t dq, e.decayedFrom = some (t, dq) → dq = q) :
+    ∃ o, unaryOp sc .deref e = some o ∧ unaryOk sc .deref e o = true := by
+  refine ⟨decay { ty := b, qual := q, lvalue := true }, ?_, ?_⟩
+  · simp only [unaryOp, he]
+    cases hdf : e.decayedFrom with
+    | none => rfl
+    | some p =>
+      obtain ⟨t, dq⟩ := p
+      have := hd t dq hdf
+      subst this; rfl
+  simp only [unaryOk, he]
+  cases b <;> simp [decay, decayTy, Ty.isFunc, Qual.union]
+
+example : ∃ e : Operand, e.ty = .ptr { c := true } Ty.int ∧ ∀ t dq, e.decayedFrom = some (t, dq) → dq = { c := true } :=
+  ⟨{ ty := .ptr { c := true } Ty.int }, rfl, fun _ _ h => by cases h⟩
+
 /-! ## 7. Null pointer constants -/
 
 /-- a cast of a null pointer constant is one iff the target is an integer type or the unqualified
